@@ -96,7 +96,9 @@ def _pj(prop, mode, fam=4, off=0, k=3, extra=()):
 
 
 def c01_jobs(tier, repo):
-    jobs = []
+    # records that differ in one field only: up to four of them share one trie node (the k-bit universes put one
+    # record on a node), so removals from the front / middle of a node's record array are validated as well
+    jobs = [_pj("C01", "twins")]
     # (i) shape search: fixed point for k=2 on every word boundary, k=3 to a depth bound (quick) / deadline (thorough)
     for off in (0, 1, 15, 30):
         jobs.append(_pj("C01", "shape", 4, off, 2))
@@ -126,7 +128,7 @@ def c01_jobs(tier, repo):
 SPECS["C01"] = CheckSpec(
     "C01", c01_jobs,
     rule="explicit-state BFS over add/remove histories of a k-bit prefix universe placed at a bit offset of the "
-         "address (states = distinct canonical dumps of the real trie, transitions = operations executed on the real "
+         "address, and of an alphabet of records differing in one field only (several records per trie node) (states = distinct canonical dumps of the real trie, transitions = operations executed on the real "
          "table); in every distinct state all queries of the (k+1)-bit universe x {matching AS, foreign AS} go through "
          "pfx_table_validate_r and pfx_table_validate and are compared with an RFC 6811 reference on the model set, "
          "including the deciding records; plus direct enumeration of all payload combinations (AS in {0,1,2} x "
@@ -314,7 +316,7 @@ def c08_jobs(tier, repo):
 
 def c13_jobs(tier, repo):
     _EJ_TIER[0] = tier
-    # the first two configurations reach their fixed point (3320 / 912 states) below depth 64; the third
+    # the first two configurations reach their fixed point (about 3340 / 920 states) below depth 64; the third
     # (refresh = retry = 1: the clock takes many more values) is explored to a depth
     d = 30 if tier == "quick" else 90
     return [_ej("C13", 64 if tier == "quick" else 200, 3, 2, 600, 1), _ej("C13", 64 if tier == "quick" else 200, 3, 2, 600, 0),
@@ -408,7 +410,9 @@ SPECS["C13"] = CheckSpec(
          "version 1 (a higher SUPPORTED version once the client is at 0), close "
          "without answer, answer in version 0, one PDU with another version inside a response, End of Data in the other "
          "version's format, answer in version 2, a version-2 Cache Response followed on the same connection by a complete "
-         "version-0 answer (which is not 'the first PDU of a connection'), timeout} against caches speaking version 1 and version 0; a model "
+         "version-0 answer (which is not 'the first PDU of a connection'), a Serial Notify in another version after the "
+         "Cache Response, timeout} and the event 'Serial Notify in another version while ESTABLISHED', against caches "
+         "speaking version 1 and version 0; a model "
          "variable v (starts at 1, lowered only by the three rules of the statement) must equal the version byte of "
          "every PDU sent; refused PDUs must be answered with error code 8 before the next query, must not end in "
          "ESTABLISHED and must not change the records; rule (ii) must reconnect without sleeping",
@@ -853,7 +857,8 @@ SPECS["C11"] = CheckSpec(
          "8 key-table configurations (right key, key only under another AS, wrong + right key, wrong key only, SKI absent, undecodable key alone / before / after the right key) (right key under right AS, right key only under another AS, wrong + right key "
          "under one SKI, wrong key only, SKI absent) in all combinations; on accepted paths EVERY single-bit flip of "
          "every signed field (target AS, every pCount / flags / AS, suite, AFI, SAFI, NLRI length and bits, later SKIs, "
-         "lengths, every signature bit); all suites != 1, AFIs outside {1,2}, unequal counts, signature lengths "
+         "lengths, every signature bit) and every single-bit flip of every segment's SKI against an unchanged key "
+         "table (no key for the near-miss SKI: ROUTER_KEY_NOT_FOUND); all suites != 1, AFIs outside {1,2}, unequal counts, signature lengths "
          "{0,1,65535}; library answer VALID iff the reference accepts every hop under a key of (AS of the hop, SKI)",
     assumptions=["paths beyond the hop bound and field values outside the three-value sets are not enumerated",
                  "cryptographic strength of P-256/SHA-256 is trusted"],
